@@ -36,11 +36,16 @@ pub struct RouteOracle {
     retired: BTreeSet<(u32, u64)>,
     pub checked: u64,
     pub stale: u64,
+    /// short-ID worlds: a datagram went to a connection that is not its sender's peer and has not
+    /// announced the destination ID (yet): (connection, ID, step, message). An endpoint routes by
+    /// an ID from the moment it allots it, which is before the connection gets to seal the
+    /// NEW_CONNECTION_ID frame; the verdict waits for that frame.
+    deferred: Vec<(u32, Vec<u8>, u64, String)>,
 }
 
 impl RouteOracle {
     pub fn new() -> Self {
-        Self { hd_seen: 0, pk_seen: 0, issued: Default::default(), active: Default::default(), retired: Default::default(), checked: 0, stale: 0 }
+        Self { hd_seen: 0, pk_seen: 0, issued: Default::default(), active: Default::default(), retired: Default::default(), checked: 0, stale: 0, deferred: Vec::new() }
     }
 }
 
@@ -118,17 +123,18 @@ impl Oracle for RouteOracle {
                 // owner: there the statement's own wording is the test — the connection that
                 // issued the destination connection ID
                 let cid_len = w.nodes[h.node as usize].cid_len;
-                let reissued = cid_len > 0 && cid_len < 4 && d.bytes.len() > cid_len && {
-                    let dcid: Vec<u8> = if d.bytes[0] & 0x80 != 0 {
-                        match crate::wire::public_header(&d.bytes, cid_len) {
-                            Ok(crate::wire::PublicHeader::Long { dcid, .. }) => dcid,
-                            _ => Vec::new(),
-                        }
-                    } else {
-                        d.bytes[1..1 + cid_len].to_vec()
-                    };
-                    self.issued.get(&to).is_some_and(|s| s.contains(&dcid))
+                let short_ids = cid_len > 0 && cid_len < 4 && d.bytes.len() > cid_len;
+                let dcid: Vec<u8> = if !short_ids {
+                    Vec::new()
+                } else if d.bytes[0] & 0x80 != 0 {
+                    match crate::wire::public_header(&d.bytes, cid_len) {
+                        Ok(crate::wire::PublicHeader::Long { dcid, .. }) => dcid,
+                        _ => Vec::new(),
+                    }
+                } else {
+                    d.bytes[1..1 + cid_len].to_vec()
                 };
+                let reissued = short_ids && self.issued.get(&to).is_some_and(|s| s.contains(&dcid));
                 let ok = tuple_owner
                     || reissued
                     || to == expect
@@ -136,6 +142,12 @@ impl Oracle for RouteOracle {
                     // retransmitted before that still belongs to the same pair
                     || (expect == NO_INC && w.conns[to as usize].peer == origin)
                     || w.conns[to as usize].peer == origin;
+                if !ok && short_ids && !dcid.is_empty() {
+                    let msg = format!("datagram#{} produced by inc{} (peer inc{}) was handed to inc{} (peer inc{}) on node{}, which has not announced connection ID {} since", h.dgram, origin, expect as i64, to, w.conns[to as usize].peer as i64, h.node, crate::util::hex(&dcid));
+                    self.deferred.push((to, dcid, w.step, msg));
+                    w.probes.hit("routing_verdict_deferred_until_id_is_announced");
+                    continue;
+                }
                 if !ok {
                     problem = Some(("datagram-routed-to-foreign-connection".into(), format!("datagram#{} produced by inc{} (peer inc{}) was handed to inc{} (peer inc{}) on node{}", h.dgram, origin, expect as i64, to, w.conns[to as usize].peer as i64, h.node)));
                     break;
@@ -149,6 +161,28 @@ impl Oracle for RouteOracle {
             }
         }
         self.hd_seen = w.handled.len();
+        // deferred verdicts: settled by the announcement, void once the connection is closed (it
+        // will never announce anything), due after 5000 further steps otherwise
+        let step = w.step;
+        let issued = &self.issued;
+        let mut due = None;
+        self.deferred.retain(|(to, dcid, at, msg)| {
+            if issued.get(to).is_some_and(|s| s.contains(dcid)) {
+                return false;
+            }
+            let c = &w.conns[*to as usize];
+            if c.conn.is_closed() || c.drained_handled || !c.lost.is_empty() || c.closed_locally_at.is_some() {
+                return false;
+            }
+            if step > *at + 5000 {
+                due = Some(msg.clone());
+                return false;
+            }
+            true
+        });
+        if let (Some(msg), None) = (due, &problem) {
+            problem = Some(("datagram-routed-to-foreign-connection".into(), msg));
+        }
         if let Some((k, d)) = problem {
             w.violate(k, d);
         }
